@@ -130,7 +130,7 @@ PLANS["C12"] = {
     "own": ["props", "res.setprop"],
     "mc": [{
         "module": "MCProps",
-        "quick": dict(OwnerKinds=Raw(ALLOWN), Keys=Raw('{"k_int", "k_int64"}'), Vals=Raw('{"v1", "v2", "nil"}'), MaxHist=6, MaxCopies=1),
+        "quick": dict(OwnerKinds=Raw(ALLOWN), Keys=Raw('{"k_int", "k_int64"}'), Vals=Raw('{"v1", "nil"}'), MaxHist=6, MaxCopies=1),
         "thorough": dict(OwnerKinds=Raw(ALLOWN), Keys=Raw('{"k_int", "k_int64", "k_str"}'), Vals=Raw('{"v1", "v2", "nil"}'), MaxHist=6, MaxCopies=2),
         "properties": ["Independence"],
     }],
